@@ -1,4 +1,5 @@
 import Plenc.Build
+import Plenc.Typing
 /-
   Driver.Sexp — the line protocol's syntax: s-expressions, and the concrete
   syntax of type definitions, values and results. Not part of the model: nothing
@@ -167,6 +168,48 @@ partial def showVal : Val → String
   | .map none => "(mn)"
   | .map (some es) =>
       "(m" ++ String.join ((sortStrings (es.map fun e => s!"({showVal e.1} {showVal e.2})")).map (" " ++ ·)) ++ ")"
+end
+
+/-- `[]byte`-kinded Go values are written `(y hex)` by the harness whatever codec
+plenc picked for them; when the codec is the packed-varint wrapper over uint8
+(a defined byte-slice type, or `[]byte` under a tag option) the model's value is
+a slice of uints. `coerceIn` converts on the way in, `showValT` on the way out. -/
+def isU8Slice : Ty → Bool
+  | .vslice (.uint 8) => true
+  | _ => false
+
+mutual
+partial def coerceIn : Ty → Val → Val
+  | .vslice (.uint 8), .bytes s => .slice (s.map fun b => .uint b.toNat)
+  | .ptr t, .ptr (some v) => .ptr (some (coerceIn t v))
+  | .vslice t, .slice vs => .slice (vs.map (coerceIn t))
+  | .fslice t, .slice vs => .slice (vs.map (coerceIn t))
+  | .lslice t, .slice vs => .slice (vs.map (coerceIn t))
+  | .pslice t, .slice vs => .slice (vs.map (coerceIn t))
+  | .struct _ fs, .struct vs => .struct (coerceFields fs vs)
+  | .map k v _, .map (some es) => .map (some (es.map fun e => (coerceIn k e.1, coerceIn v e.2)))
+  | _, v => v
+partial def coerceFields : Fields → List Val → List Val
+  | (_, _, t) :: r, v :: vs => coerceIn t v :: coerceFields r vs
+  | _, vs => vs
+end
+
+mutual
+partial def showValT : Ty → Val → String
+  | .vslice (.uint 8), .slice vs =>
+      "(y " ++ hexOf (vs.map fun v => match v with | .uint n => n.toUInt8 | _ => 0) ++ ")"
+  | .ptr t, .ptr (some v) => s!"(p {showValT t v})"
+  | .vslice t, .slice vs => "(l" ++ String.join (vs.map fun v => " " ++ showValT t v) ++ ")"
+  | .fslice t, .slice vs => "(l" ++ String.join (vs.map fun v => " " ++ showValT t v) ++ ")"
+  | .lslice t, .slice vs => "(l" ++ String.join (vs.map fun v => " " ++ showValT t v) ++ ")"
+  | .pslice t, .slice vs => "(l" ++ String.join (vs.map fun v => " " ++ showValT t v) ++ ")"
+  | .struct _ fs, .struct vs => "(r" ++ String.join ((showFieldsT fs vs).map (" " ++ ·)) ++ ")"
+  | .map k v _, .map (some es) =>
+      "(m" ++ String.join ((sortStrings (es.map fun e => s!"({showValT k e.1} {showValT v e.2})")).map (" " ++ ·)) ++ ")"
+  | _, v => showVal v
+partial def showFieldsT : Fields → List Val → List String
+  | (_, _, t) :: r, v :: vs => showValT t v :: showFieldsT r vs
+  | _, vs => vs.map showVal
 end
 
 def showWT (w : WT) : String := toString w.code
